@@ -30,6 +30,8 @@ pub struct DrawRun {
     /// an unbounded internal-iteration consumer met a stream that did not end: nothing can be
     /// concluded from this run (such a consumer is only legal for finite streams)
     pub inconclusive: bool,
+    /// dev::take_reach()
+    pub reach: [u32; 3],
 }
 
 struct DrawVisitor<'s> {
@@ -63,6 +65,7 @@ fn run_typed<C: SimColor>(cfg: &RunCfg, spec: &DrawableSpec, path: Path) -> Draw
     crate::erased::set_fold_mode(fold);
     crate::dev::take_hint_breach();
     crate::dev::take_unbounded_abort();
+    crate::dev::take_reach();
     let result = guarded(|| {
         let mut boxes = Vec::new();
         let mut top = DynTarget::new(&mut dev);
@@ -75,6 +78,7 @@ fn run_typed<C: SimColor>(cfg: &RunCfg, spec: &DrawableSpec, path: Path) -> Draw
         boxes: v.boxes,
         hint_breach: crate::dev::take_hint_breach(),
         inconclusive: crate::dev::take_unbounded_abort(),
+        reach: crate::dev::take_reach(),
     }
 }
 
